@@ -301,6 +301,23 @@ impl Env {
     }
 }
 
+/// C13 ("a finished or cancelled task's future and everything it captured are dropped"): every task future of a
+/// `(task I*)` command — its first task and every `spawn` / `handoff` child — captures one of these; the direct host
+/// reports how many are alive after every step (`g<N>`), the model the number of task futures it has not dropped.
+pub static LIVE_TASK_GUARDS: std::sync::atomic::AtomicI64 = std::sync::atomic::AtomicI64::new(0);
+pub struct TaskGuard;
+impl TaskGuard {
+    pub fn new() -> Self {
+        LIVE_TASK_GUARDS.fetch_add(1, std::sync::atomic::Ordering::SeqCst);
+        TaskGuard
+    }
+}
+impl Drop for TaskGuard {
+    fn drop(&mut self) {
+        LIVE_TASK_GUARDS.fetch_sub(1, std::sync::atomic::Ordering::SeqCst);
+    }
+}
+
 /// a future that wakes itself `k` times before completing
 pub struct SelfWake(pub u32);
 impl Future for SelfWake {
@@ -363,7 +380,9 @@ pub fn run_block<Ef: HEffect>(
                 Instr::Spawn(h, body) => {
                     let child_env = env.clone();
                     let body = Arc::new(body.clone());
+                    let guard = TaskGuard::new();
                     let handle = ctx.spawn(move |ctx| async move {
+                        let _guard = guard;
                         run_block(ctx, child_env, body).await;
                     });
                     let h2 = handle.clone();
@@ -382,7 +401,9 @@ pub fn run_block<Ef: HEffect>(
                     let mut child_env = env.clone();
                     let body = Arc::new(body.clone());
                     let x = *x;
+                    let guard = TaskGuard::new();
                     let _ = ctx.spawn(move |ctx| async move {
+                        let _guard = guard;
                         let v = match first {
                             Poll::Ready(v) => v,
                             Poll::Pending => fut.await,
@@ -638,7 +659,9 @@ pub fn build<Ef: HEffect>(c: &Cmd, env: &Env, aborts: &mut Aborts) -> Command<Ef
         Cmd::Task(is) => {
             let env = env.clone();
             let is = Arc::new(is.clone());
+            let guard = TaskGuard::new();
             Command::new(move |ctx| async move {
+                let _guard = guard;
                 run_block(ctx, env, is).await;
             })
         }
